@@ -219,7 +219,27 @@ def trace_for(tid, rng, quick):
             "circuits": recs, "events": events}
 
 
+def far_apart_trace(tid):
+    """two circuits on the same registers that are MANY edits apart (the graph-edit-distance search gives up): an empty
+    circuit against fifteen gates - the methods must not answer 'equal'"""
+    n_e, n_p, n_c = 1, 3, 1
+    prog = [{"k": k, "r": [["p", q]], "c": None} for q in range(3) for k in ("Hadamard", "Phase", "Hadamard", "SigmaX", "Phase")]
+    circuits = [build(n_e, n_p, n_c, []), build(n_e, n_p, n_c, prog)]
+    events = []
+    for m in ("GED_full", "GED_adaptive", "direct"):
+        a, b = circuits[0].copy(), circuits[1].copy()
+        out = call(lambda: a.compare(b, method=m))
+        a2, b2 = circuits[0].copy(), circuits[1].copy()
+        rev = call(lambda: b2.compare(a2, method=m))
+        events.append({"fn": "compare", "method": m, "a": 1, "b": 2, "out": out, "rev": rev, "expect_equal": False,
+                       "why": "none", "tag": "far-apart"})
+    return {"tid": tid, "meta": {"n_e": n_e, "n_p": n_p, "n_c": n_c, "program": prog, "tags": ["base", "far-apart"],
+                                 "via_replace": False}, "circuits": [circ_rec(c) for c in circuits], "events": events}
+
+
 def run(ctx):
     GED_BUDGET[0] = 1 if ctx.quick else 25      # graph edit distance is exponential (10 s timeout per call)
-    traces = [trace_for(i + 1, ctx.rng, ctx.quick) for i in range(40 if ctx.quick else 1200)]
+    VIA_REPLACE[0] = False
+    traces = [far_apart_trace(0)]
+    traces += [trace_for(i + 1, ctx.rng, ctx.quick) for i in range(40 if ctx.quick else 1200)]
     ctx.judge("Trace_Compare", traces, label="J: comparison methods and de-duplication on near-miss circuit families", xmx="4g")
